@@ -157,3 +157,15 @@ Definition headok (id : string) (nm : option string) (ty : string) : bool :=
   textok id && no_char ":" id && negb (String.eqb id "")
   && match nm with Some s => textok s && no_char ":" s | None => true end
   && textok ty && no_char ":" ty && negb (String.eqb ty "").
+
+(* the TOP-LEVEL header of a row's blob when the element NAME may hold colons: the reader cuts  b'id:name:type '  at EVERY colon
+   and takes the first three pieces, so the name entry is the first piece of the name and the type entry its second piece (or the
+   type when the name has no colon).  Nothing else of the parse depends on the header. *)
+Definition headok_top (id : string) (nm : option string) (ty : string) : bool :=
+  textok id && no_char ":" id && negb (String.eqb id "")
+  && match nm with Some s => textok s | None => true end
+  && textok ty && no_char ":" ty && negb (String.eqb ty "").
+Definition top_head (id : string) (nm : option string) (ty : string) : list (string * pv) :=
+  let parts := (split_on ":" (name_text nm) ++ [(ty ++ " '")%string])%list in
+  [("id", PStr (String "b" (String SQ id))); ("name", PStr (py_strip (nth 0 parts ""))); ("type", PStr (py_strip (nth 1 parts "")))].
+
